@@ -521,6 +521,8 @@ func (fv *FV) contractCall(name string, call *ast.CallExpr, cx *Cx) (TV, bool) {
 			rs = SBool
 		case "set":
 			rs = arr(SInt, SBool)
+		case "string":
+			rs = SStr
 		}
 		var ty types.Type
 		switch rs {
@@ -785,6 +787,9 @@ func (fv *FV) contractedCall(call *ast.CallExpr, cx *Cx) []TV {
 	ccx := &Cx{st: pre, old: pre, contract: true, scopePos: cs.ScopePos, noOb: true, env: env}
 	if !cs.Trusted || len(cs.FC.Requires) > 0 {
 		for _, r := range cs.FC.Requires {
+			if r.Tag == "hint" {
+				continue // instantiation hint (true by the axiom of its trigger symbol): assumed in the body only
+			}
 			for _, cj := range fv.conjunctsIn(r.Expr, ccx) {
 				n := fv.ordinal("requires@" + cs.Key)
 				if ob := fv.oblige(st, "requires", fmt.Sprintf("requires@%s[%d]", cs.Key, n), cj.term, "precondition of "+cs.Key+": "+cj.text, call.Pos(), cx); ob != nil {
